@@ -15,6 +15,86 @@ REL = "floating_point_algorithms.py"
 KMAX = {64: 1075, 32: 150, 16: 25}
 
 
+def check_trig_recombination(r, repo, rule="R17.3"):
+    """Trigonometric reduction, last step: under exact-arithmetic semantics - every + and * exact, the 2Sum pair (s, e)
+    summarised by its contract e = a + b - s - the returned double-word remainder r + t equals (y + t) * (P_hi + P_lo), where
+    (k, y, t) is the result of the multiword product modulo 4 and (P_hi, P_lo) the double-word pi/2.  A wrong sign or a
+    dropped term in the recombination breaks the polynomial identity.  The body is interpreted by sa/absint.py on exact
+    polynomials; nothing numeric is evaluated."""
+    from sa.absint import Interp, Closure, Unsupported as IUnsupported, PyRaise
+    from rules.C12 import Poly
+
+    class RV(Poly):
+        __absint_host__ = True
+
+        def __abs__(self):
+            return RV({("|" + repr(self) + "|",): 1})
+
+        def _c(self, o):
+            return "COND"
+
+        __lt__ = __le__ = __gt__ = __ge__ = _c
+
+        def __hash__(self):
+            return id(self)
+
+    def lift(p):
+        return RV(p.t) if isinstance(p, Poly) and not isinstance(p, RV) else p
+
+    class Ctx:
+        __absint_host__ = True
+
+        def constant(self, v, like=None):
+            from fractions import Fraction
+            if isinstance(v, RV):
+                return v
+            return RV({(): Fraction(v)}) if isinstance(v, (int, float)) else RV({(f"const:{v}",): 1})
+
+        def select(self, c, a, b):
+            # the reduction proper is the arm taken when |x| is not small; the other arm returns x itself
+            return b
+
+    g = repo.func(REL, "argument_reduction_trigonometric_impl")
+    params = [a.arg for a in g.args.args]
+    if len(params) != 3:
+        raise AnalysisError("argument_reduction_trigonometric_impl: expected parameters (ctx, dtype, x)")
+    K, Y, Tt, PH, PL = (RV({(n,): 1}) for n in ("k", "y", "t", "P_hi", "P_lo"))
+    fresh = [0]
+
+    def add_2sum(ctx, a, b, *rest, **kw):
+        fresh[0] += 1
+        s_ = RV({(f"s{fresh[0]}",): 1})
+        return (s_, lift(a + b - s_))
+
+    I = Interp(repo)
+    I.globals_cache[(REL, "add_2sum")] = add_2sum
+    I.globals_cache[(REL, "split_tripleword")] = lambda ctx, x, **kw: ("x_tw",)
+    I.globals_cache[(REL, "mul_mw_mod4")] = lambda ctx, a, b, **kw: (K, Y, Tt)
+    I.ext_calls = {
+        "functional_algorithms.utils.get_two_over_pi_multiword": lambda *a, **k: [1.0],
+        "functional_algorithms.utils.get_pi_over_two_multiword": lambda *a, **k: [PH, PL],
+    }
+    from sa.absint import ModRef
+    env_dtype = ModRef("ext", "numpy.float64")
+    try:
+        out = I.call(Closure(g, {}, I, REL, bound_self=None), [Ctx(), env_dtype, RV({("x",): 1})])
+    except (IUnsupported, PyRaise, TypeError) as e:
+        raise AnalysisError(f"argument_reduction_trigonometric_impl is not interpretable: {getattr(e, 'what', e)}")
+    if not (isinstance(out, tuple) and len(out) == 3):
+        raise AnalysisError(f"argument_reduction_trigonometric_impl returns {out!r}, expected (k, r, t)")
+    k_, r_, t_ = out
+    ok_k = isinstance(k_, Poly) and k_ == K
+    r.ob(rule, f"{REL}::argument_reduction_trigonometric_impl returns the quadrant of the multiword product", ok_k, f"first result is {k_!r}", loc(REL, g))
+    try:
+        total = r_ + t_
+        want = (Y + Tt) * (PH + PL)
+        ok = total == want
+        detail = f"r + t = {total!r}; expected (y + t) * (P_hi + P_lo) = {want!r}" + ("" if ok else f"; difference {total - want!r}")
+    except TypeError as e:
+        ok, detail = False, str(e)
+    r.ob(rule, f"{REL}::argument_reduction_trigonometric_impl remainder r + t == (y + t) * pi/2 (exact-arithmetic identity)", ok, detail, loc(REL, g))
+
+
 def run(repo, tier):
     r = Report("C17", tier, repo, level="other", design_ref="§3/C17")
     r.explanation = (
@@ -26,6 +106,7 @@ def run(repo, tier):
     )
     r.trusted_base = ["Python ast", "ln 2 and 1/ln 2 to 100 digits", "struct rounding of literals to binary16/32"]
     r.rule("R17.1", "double-word ln2: |hi+lo-ln2| <= ulp(lo)/2 and hi leaves enough trailing zero bits for exact k*hi", floor=9)
+    r.rule("R17.3", "trigonometric reduction: the returned double-word remainder equals (y + t) * (pi/2 double-word) as an exact-arithmetic polynomial identity (2Sum summarised by its contract)", floor=2)
     r.rule("R17.2", "reduction formula: k = floor(x*ln2inv + 1/2), r = x - k*ln2hi, c = -k*ln2lo; scalar constants correctly rounded", floor=5)
 
     from sa.kernels import Extractor, IN, CONST, normal as knf, show, lift, is_term, Unsupported as KUnsupported
@@ -136,6 +217,7 @@ def run(repo, tier):
             v = round_to(b, lit)
             ok = abs(v - LN2INV) <= ulp(b, LN2INV) / 2
             r.ob("R17.2", f"{REL}::1/ln2 float{b} correctly rounded", ok, f"the multiplier {lit!r} rounds to {float(v)!r} in float{b}; |error vs 1/ln 2| = {float(abs(v - LN2INV)):.3e} > half ulp", loc(REL, g))
+    check_trig_recombination(r, repo)
     # every other scalar the constants function returns that is (close to) ln 2 or ln 2 / 2 must be correctly rounded too
     f = repo.func(REL, "get_log2_doubleword_and_inverse")
     try:
